@@ -409,6 +409,56 @@ pub fn record_c02(args: &Args, mut out: Out) -> usize {
         };
         run_block(&cfg, &mut out, 2);
     }
+    // flop twins, one right after the other on this thread: the same ranges on a flop that differs in one card (first, second or
+    // third; the next rank of the same suit, or the card 16 / 32 / 48 ids away - the same low bits of the card id), both orders.
+    // The window is the whole first turn row, so every river index is dealt and any difference between the two decks shows.
+    for i in 0..(args.num("twins", 6) as usize) {
+        let mut c = random_cfg(&mut rng, 1 + i % 2, 3, 6);
+        c.from = (0, 1);
+        c.to = (1, 2);
+        let busy: Vec<usize> = c.ranges.iter().flat_map(|r| r.iter().flat_map(|e| [e.a, e.b])).collect();
+        let mut n = 0;
+        for which in 0..3usize {
+            for step in [4usize, 16, 32, 48] {
+                let f0 = c.flop[which];
+                let k = if f0 + step < 52 { f0 + step } else if f0 >= step { f0 - step } else { continue };
+                if c.flop.contains(&k) || busy.contains(&k) {
+                    continue;
+                }
+                let mut d = c.clone();
+                d.flop[which] = k;
+                n += 1;
+                if n % 2 == 0 {
+                    run_block(&c, &mut out, 1);
+                    run_block(&d, &mut out, 1);
+                } else {
+                    run_block(&d, &mut out, 1);
+                    run_block(&c, &mut out, 1);
+                }
+            }
+        }
+    }
+    // a long stretch of blocked deals followed by a few legal ones: the first player's only combo holds the first deck card (As), so
+    // the whole first turn is blocked - 48 rivers x 40 x 40 x 40 deals, three million in a row; the window ends after position
+    // (1,2) = (Ah, Ad), where all but two combos of every other player are blocked as well (they hold Ah or Ad)
+    if big {
+        let flop = [21usize, 34, 47];
+        let mut ranges: Vec<Vec<Entry>> = vec![vec![Entry { a: 0, b: 30, m: 1, e: 0 }]];
+        for p in 0..3usize {
+            let mut r: Vec<Entry> = vec![];
+            let others: Vec<usize> = (3..52).filter(|c| ![21usize, 30, 34, 47].contains(c)).collect();
+            for (n, &y) in others.iter().enumerate() {
+                if r.len() < 38 {
+                    r.push(Entry { a: 1 + (n + p) % 2, b: y, m: 1, e: 1 });
+                }
+            }
+            r.push(Entry { a: 4 + 2 * p, b: 40 + p, m: 1, e: 0 });
+            r.push(Entry { a: 5 + 2 * p, b: 44 + p, m: 3, e: 2 });
+            ranges.push(r);
+        }
+        let cfg = Cfg { flop, ranges, from: (0, 1), to: (1, 3), scoped: true };
+        run_block(&cfg, &mut out, 1);
+    }
     // many players with one or two combos each (a flop leaves room for 23), and no player at all
     for &np in &[0usize, 5, 10, 17, 22, 23] {
         let f = rng.distinct(3, 52);
